@@ -21,9 +21,6 @@ def PlainParent (fs : Fs) (path : Bytes) (d : CPath) : Prop :=
   path ≠ [] ∧ ∃ cs n, chunks path = cs ++ [n] ∧ PlainDirs fs (start0 path) cs ∧ n ≠ [46] ∧ n ≠ dotdot ∧
     d = start0 path ++ cs ++ [n]
 
-/-- every component of every stored path is a proper name -/
-def NamesOk (fs : Fs) : Prop := ∀ x ∈ fs.ents, ∀ c ∈ x.1, IsName c
-
 def Sub (fs' fs : Fs) : Prop := ∀ x, x ∈ fs'.ents → x ∈ fs.ents
 
 theorem Sub.refl (fs : Fs) : Sub fs fs := fun _ h => h
@@ -389,9 +386,6 @@ theorem dirUnlink_frame : ∀ (fuel : Nat) (recursive : Bool) (fs : Fs) (path : 
 
 /-! ### well-formed worlds: removing exactly the tree -/
 
-/-- no canonical path is stored twice -/
-def NoDupKeys (fs : Fs) : Prop := (fs.ents.map (·.1)).Nodup
-
 theorem nodup_unique : ∀ (l : List (CPath × Entry)), (l.map (·.1)).Nodup →
     ∀ x ∈ l, ∀ y ∈ l, x.1 = y.1 → x = y := by
   intro l
@@ -408,15 +402,6 @@ theorem nodup_unique : ∀ (l : List (CPath × Entry)), (l.map (·.1)).Nodup →
     · rcases hy with rfl | hy
       · exact absurd (List.mem_map.mpr ⟨x, hx, hxy⟩) hn.1
       · exact ih hn.2 x hx y hy hxy
-
-/-- every proper, non-empty prefix of a stored path is stored as a directory -/
-def ParentsOk (fs : Fs) : Prop :=
-  ∀ x ∈ fs.ents, ∀ k, k < x.1.length → 0 < k → ∃ y ∈ fs.ents, y.1 = x.1.take k ∧ y.2 = .dir
-
-structure WF (fs : Fs) : Prop where
-  names : NamesOk fs
-  nodup : NoDupKeys fs
-  parents : ParentsOk fs
 
 /-- nothing is stored strictly below `p` -/
 def Leaf (fs : Fs) (p : CPath) : Prop := ∀ x ∈ fs.ents, ¬ (p <+: x.1 ∧ x.1 ≠ p)
